@@ -54,22 +54,34 @@ def _guard(fn, kind, alias):
         raise v
 
 
-def ob_selftest(kind):
-    return wordspec_a64.selftest(a64_prog(), kind)
+def ob_selftest(kind, n_random):
+    return wordspec_a64.selftest(a64_prog(), kind, n_random)
 
 
 def ob_symbols():
-    """the routines the headers declare are exactly the global function symbols the two files define (ground comparison)"""
+    """the routines the headers declare are exactly the global function symbols the two files define, and their parameter lists are the
+    argument registers the obligations fill (ground comparison of names)"""
     hdr = ""
     for h in ("bigint.hpp", "fp.hpp"):
         hdr += open(os.path.join(build.REPO, "include/core/arch/aarch64", h)).read()
     import re
-    declared = sorted(set(re.findall(r"embedded_pairing_core_arch_aarch64_(\w+)\s*\(", hdr)))
+    decl = {m.group(1): [a.split()[-1].lstrip("*") for a in m.group(2).split(",")]
+            for m in re.finditer(r"^\s*(?:bool|void|uint64_t)\s+embedded_pairing_core_arch_aarch64_(\w+)\s*\(([^)]*)\)\s*;", hdr, re.M)}
+    calls = {m.group(1): [a.strip() for a in m.group(2).split(",")]
+             for m in re.finditer(r"^\s*(?:return\s+)?embedded_pairing_core_arch_aarch64_(\w+)\s*\(([^)]*)\)\s*;", hdr, re.M)}
+    declared = sorted(decl)
     defined = sorted(s[len(wordspec_a64.PFX):] for s in a64_prog().sym if s.startswith(wordspec_a64.PFX) and "_final_" not in s)
     if declared != defined or declared != ROUTINES:
         raise Violation("a64:symbols", "AArch64 routines declared in the headers %r, defined in the .s files %r, covered by this check %r" % (
             declared, defined, ROUTINES), {"backend": "aarch64", "declared": declared, "defined": defined})
-    return {"queries": 0, "paths": 0, "functions": [], "sample": "declared == defined == checked: %s (ground comparison of names)" % ", ".join(declared)}
+    for kind, (na, nb, nres, has_p, _) in wordspec_a64.KINDS.items():
+        want = ["res", "a"] + (["b"] if nb else []) + (["p", "inv_word"] if has_p else [])
+        call = ["this", "&a"] + (["&b"] if nb else []) + (["&p", "inv_word"] if has_p else [])
+        if decl[kind] != want or calls.get(kind) != call:
+            raise Violation("a64:symbols:" + kind, "%s%s: header declares parameters %r and the C++ wrapper passes %r; the obligations assume %r / %r" % (
+                wordspec_a64.PFX, kind, decl[kind], calls.get(kind), want, call), {"backend": "aarch64", "declared": decl[kind], "call": calls.get(kind)})
+    return {"queries": 0, "paths": 0, "functions": [], "sample": "declared == defined == checked: %s; declared parameter lists and the C++ wrappers' argument lists "
+            "match the argument registers the obligations fill (ground comparison of names, no solver query)" % ", ".join(declared)}
 
 
 def ob_simple(kind, alias):
@@ -86,9 +98,10 @@ def ob_montgomery(kind, alias):
 
 BOUNDS = ["AArch64: all 384-bit operands for bigint_384_add/subtract/multiply2 (res distinct, res==a, res==b, res==a==b), bigint_768_multiply "
           "(also a==b) and bigint_768_square; all 768-bit inputs below p*2^384 for fpbase_384_montgomery_reduce; all a, b < p for the fused "
-          "fpbase_384_multiply (res distinct, res==a, res==b, res==a==b) and fpbase_384_square (res distinct, res==a); straight-line code, no unwinding bound",
-          "AArch64: the back end has no fpbase_384_add/subtract/multiply2 routines (commented out in bigint.s); those operations are the portable C++ "
-          "(decided as P64) calling the bigint_384 kernels decided here",
+          "fpbase_384_multiply (res distinct, res==a, res==b, res==a==b) and fpbase_384_square (res distinct, res==a); the routines have no loops: every feasible path is executed, no unwinding bound",
+          "AArch64: the back end has no fpbase_384_add/subtract/multiply2 routines (commented out in bigint.s); on AArch64 those operations are the generic C++ "
+          "(decided as P64) with BigInt<384>::add/subtract/shift_left_in_word<1> replaced by the kernels decided here against the same specification "
+          "(equal functions substituted; that C++ is not separately executed for an AArch64 target)",
           "AArch64: counterexamples and the per-run self-test are executed by the interpreter's concrete mode only (replay-kind=interpreter); "
           "NOT covered: behaviour of real AArch64 hardware where it differs from engine/easm_a64.py"]
 TRUSTED = ["AArch64 instruction semantics as implemented in engine/easm_a64.py (ldp/stp/ldr/str addressing and write-back, add/adc/sub/sbc and their "
@@ -108,7 +121,7 @@ def register(chk):
     a64_prog()
     chk.add("a64:symbols", ob_symbols)
     for kind in ROUTINES:
-        chk.add("a64:selftest:%s" % kind, ob_selftest, kind)
+        chk.add("a64:selftest:%s" % kind, ob_selftest, kind, 24 if chk.tier == "quick" else 400)
         fn = ob_simple if kind.startswith("bigint_384") else ob_multiply if kind.startswith("bigint_768") else ob_montgomery
         for alias in wordspec_a64.ALIASES[kind]:
             chk.add("a64:%s:alias=%d" % (kind, alias), fn, kind, alias)
